@@ -158,6 +158,9 @@ func (r *Runner) Setup() {
 		id := fmt.Sprintf("s%d", i)
 		r.ids = append(r.ids, id)
 		s := w.AddServer(id, sim.Flavour(p.Flavour[i]))
+		if p.Suffrage[i] == 2 {
+			continue // a late joiner: empty disk, not in the initial configuration, started by "join"
+		}
 		suf := raft.Voter
 		if p.Suffrage[i] == 1 {
 			suf = raft.Nonvoter
@@ -173,8 +176,17 @@ func (r *Runner) Setup() {
 	w.Net.Policy = r.policy
 	r.lossy = p.Lossy
 	for i := 0; i < p.N; i++ {
-		r.start(i)
+		if p.Suffrage[i] != 2 {
+			r.start(i)
+		}
 	}
+}
+
+// neverStarted: a late joiner that has not been started yet.
+func (r *Runner) neverStarted(i int) bool {
+	r.W.Mu.Lock()
+	defer r.W.Mu.Unlock()
+	return r.W.Servers[r.ids[i]].Gen == 0
 }
 
 func (r *Runner) start(i int) *sim.Instance {
